@@ -201,8 +201,14 @@ theorem prun_openat (d : Fd) (hd : 0 ≤ d) (n : Bytes) (fl mode : Nat) :
     rw [openKind_or _ _ O_NOCTTY (by decide) (by decide) (by decide) (by decide),
       openKind_or _ _ O_CLOEXEC (by decide) (by decide) (by decide) (by decide),
       openKind_or _ _ O_NOFOLLOW (by decide) (by decide) (by decide) (by decide)]
+  have hnf : hasAll (fl ||| O_NOFOLLOW ||| O_CLOEXEC ||| O_NOCTTY) O_NOFOLLOW = true := by
+    have h1 : fl ||| O_NOFOLLOW ||| O_CLOEXEC ||| O_NOCTTY = O_NOFOLLOW ||| (fl ||| O_CLOEXEC ||| O_NOCTTY) := by
+      apply Nat.eq_of_testBit_eq; intro i
+      simp only [Nat.testBit_or]
+      cases fl.testBit i <;> cases O_NOFOLLOW.testBit i <;> cases O_CLOEXEC.testBit i <;> cases O_NOCTTY.testBit i <;> rfl
+    rw [h1]; exact hasAll_or_left _ _
   simp only [M.bind_def, prun_bind'_simp, prun_do_liftE, KRun.hotfix_tree hd, prun_mcall_simp,
-    PWorld.answer, hk]
+    PWorld.answer, hk, hnf, Bool.true_or, ↓reduceIte]
   cases w.lookup d n with
   | error e => simp
   | ok c =>
